@@ -212,8 +212,8 @@ func Render(toks []Tok, seps []string) (string, []Tok) {
 	out := make([]Tok, len(toks))
 	off, line, col := 0, 1, 1
 	write := func(s string) {
+		b.WriteString(s) // bytes as they are (a stray byte sequence that is not UTF-8 counts as one character)
 		for _, r := range s {
-			b.WriteRune(r)
 			off++
 			if r == '\n' {
 				line++
